@@ -15,6 +15,11 @@ TEXTS = ["plain failure", "cancel scope", "Attempted to exit cancel scope in a d
          "", "cancel  scope", "scope cancel"]
 CODES = [-32601, -32603, -32000, 0]
 ENTRIES = ["stdio_client", "stdio_client_with_initialize", "StdioClient", "StdioTransport"]
+HTTP_ENTRIES = ["sse_client", "SSETransport", "http_client", "StreamableHTTPTransport"]
+# server texts that look like a transport-level diagnosis (status codes, 'not found', migration hints)
+HTTP_TEXTS = ["plain failure", "Method not found", "Resource not found: file:///x", "upstream said 404", "405 Method Not Allowed",
+              "method not allowed", "cancel scope", "connection refused", "timed out", "SSE endpoint not found", ""]
+HTTP_CODES = [-32601, -32603, -32002, -32000, 1404, -32405, 0]
 
 
 def run_one(ctl: explorer.Ctl, cfg: Dict[str, Any]) -> Dict[str, Any]:
@@ -47,8 +52,37 @@ def run_one(ctl: explorer.Ctl, cfg: Dict[str, Any]) -> Dict[str, Any]:
 
     async def body(read, write):
         info["entered"] = True
-        await send_message(read, write, "tools/list", timeout=2.0, message_id="q1")
+        await send_message(read, write, "tools/list", timeout=1.5, message_id="q1")
         info["returned_normally"] = True
+
+    err_body = {"jsonrpc": "2.0", "id": "q1", "error": {"code": code, "message": text}}
+    if cfg["entry"] in HTTP_ENTRIES:
+        import httpx
+
+        from ..seams_http import patched_httpx
+        from .c12 import ENDPOINT_FORMS, Server, ev
+        from .c12 import _params as sse_params
+
+        srv = Server(loop, {"kind": "ok"})
+        srv.stream.feed(ENDPOINT_FORMS["abs-path"][0].encode())
+
+        def idle(lp):
+            # the scripted SSE server: accept each POST, answer a request with the error event on the stream
+            for i, (rec, fut) in enumerate(srv.posts):
+                if not fut.done():
+                    d = rec.json() or {}
+                    srv.complete_post(i, {"kind": "status", "status": 202})
+                    if d.get("method") and d.get("id") is not None:
+                        srv.stream.feed(ev(err_body).encode())
+                    return
+
+        def http_handler(rec):
+            d = rec.json() or {}
+            if rec.method != "POST":
+                return httpx.Response(405, content=b"")
+            if d.get("method") and d.get("id") is not None:
+                return httpx.Response(200, headers={"content-type": "application/json"}, content=json.dumps(err_body).encode())
+            return httpx.Response(202, content=b"")
 
     async def main():
         with seams.patched_open_process(lambda cmd, kw: proc):
@@ -66,6 +100,30 @@ def run_one(ctl: explorer.Ctl, cfg: Dict[str, Any]) -> Dict[str, Any]:
                     from chuk_mcp.transports.stdio.stdio_client import StdioClient
                     async with StdioClient(seams.stdio_params()) as c:
                         await body(*c.get_streams())
+                elif e == "sse_client":
+                    from chuk_mcp.transports.sse.sse_client import sse_client
+                    loop.idle_hook = idle
+                    with patched_httpx(srv.handler):
+                        async with sse_client(sse_params()) as (r, w):
+                            await body(r, w)
+                elif e == "SSETransport":
+                    from chuk_mcp.transports.sse.transport import SSETransport
+                    loop.idle_hook = idle
+                    with patched_httpx(srv.handler):
+                        async with SSETransport(sse_params()) as t:
+                            await body(*(await t.get_streams()))
+                elif e == "http_client":
+                    from chuk_mcp.transports.http.http_client import http_client
+                    from chuk_mcp.transports.http.parameters import StreamableHTTPParameters
+                    with patched_httpx(http_handler):
+                        async with http_client(StreamableHTTPParameters(url="http://mcp.test/mcp", timeout=2.0)) as (r, w):
+                            await body(r, w)
+                elif e == "StreamableHTTPTransport":
+                    from chuk_mcp.transports.http.parameters import StreamableHTTPParameters
+                    from chuk_mcp.transports.http.transport import StreamableHTTPTransport
+                    with patched_httpx(http_handler):
+                        async with StreamableHTTPTransport(StreamableHTTPParameters(url="http://mcp.test/mcp", timeout=2.0)) as t:
+                            await body(*(await t.get_streams()))
                 else:
                     from chuk_mcp.transports.stdio.transport import StdioTransport
                     async with StdioTransport(seams.stdio_params()) as t:
@@ -91,7 +149,8 @@ def run_one(ctl: explorer.Ctl, cfg: Dict[str, Any]) -> Dict[str, Any]:
         sig = {"class": "error-did-not-leave-the-context-as-the-classified-exception", "entry": cfg["entry"],
                "left_as": kind if kind != "classified" else f"{cls}/{got_code}",
                "text_kind": "mentions-cancel-scope" if "cancel" in text.lower() and "scope" in text.lower() else
-               ("mentions-json-object" if "json object" in text.lower() else "other")}
+               ("mentions-json-object" if "json object" in text.lower() else
+                ("looks-like-a-transport-diagnosis" if cfg["entry"] in HTTP_ENTRIES and text in HTTP_TEXTS[1:] else "other"))}
         viol.append({"sig": sig, "msg": f"cfg={cfg}: the server answered error {code} {text!r}; the with-block ended with "
                                         f"{val} (expected {want_cls} carrying {code})"})
     if errors:
@@ -101,5 +160,6 @@ def run_one(ctl: explorer.Ctl, cfg: Dict[str, Any]) -> Dict[str, Any]:
 
 def add_part(res: core.Result, tier: str) -> None:
     cfgs = [{"entry": e, "text": t, "code": c} for e in ENTRIES for t in TEXTS for c in CODES]
+    cfgs += [{"entry": e, "text": t, "code": c} for e in HTTP_ENTRIES for t in HTTP_TEXTS for c in HTTP_CODES]
     out = explorer.explore(RUN, cfgs, fidelity=True)
     sched.absorb(res, "iv-classified-error-leaves-the-client-context", RUN, out, cfgs, min_outcomes=1)
